@@ -410,11 +410,6 @@ def context(key, data, spec_text):
             return "[non-zero normal data length announced in the sub-header]"
         if st > 8 and cnt > 1:
             return "[announced repeat length larger than the documented record, more than one record]"
-    if key in ((4, "FF11"), (5, "FF11")):
-        known = ("22", "24") if key[0] == 4 else ("24",)
-        fl = [r.get("following_length") for r in specmap.parse(spec_text)]
-        if any(f not in known for f in fl):
-            return "[a record announces a following length other than the documented one(s)]"
     return ""
 
 
